@@ -95,6 +95,12 @@ def run_shape(shape):
     eng.assume_global(*pre)
 
     def body():
+        try:
+            return body_()
+        except sp.LayoutAccess as e:
+            return ("LAYOUT", str(e))
+
+    def body_():
         RecDok.made = []
         with bound(T, dok_array=RecDok, diags=sp.ddiags, int=sym_int, print=noprint):
             traj = sarr([SR(x, nan=b) for x, b in zip(xs, nans)]) if L else np.zeros(0, dtype=object).view(type(sarr([0])))
@@ -123,6 +129,12 @@ def run_shape(shape):
         if path.kind == "exc":
             acc.structural("no_exception", False, detail=repr(path.value) + (path.tb or "")[-500:],
                            cex={"kind": "exception", "exc": type(path.value).__name__})
+            continue
+        if isinstance(path.value, tuple) and len(path.value) == 2 and isinstance(path.value[0], str) and path.value[0] == "LAYOUT":
+            # the code reads the CSR buffers of a matrix whose sparsity pattern depends on the (symbolic) trajectory: this model keeps no
+            # layout for such a matrix, so the path is undecided -- reported as inconclusive, never as held
+            acc.obligations += 1
+            acc.inconclusive.append({"obligation": "transition_matrix", "solver": "none", "note": "storage-layout access on a pattern-abstract matrix: " + path.value[1][:120]})
             continue
         M, Mr, doks, hist = path.value
         prem = path.premises
